@@ -298,7 +298,7 @@ def classify(line):
 def pyref_findings(prop, text, trace):
     """mismatches of the implementation trace against the reference semantics, filtered to the property"""
     hist = pyref.parse_histories(text)[0]
-    lines = [trace['header']] + trace['lines']
+    lines = [pyref.header(hist)] + trace['lines']       # shards renumber the histories
     out = []
     try:
         mm = pyref.check_trace(hist, lines)
@@ -424,9 +424,9 @@ def make_histories(prop, tier, seed):
         for fam, t in hs[:len(hs) // 3 + 1]:
             first, rest = t.split('\n', 1)
             p = first.split()
+            if re.search(r'(^|[ ,])(\d{5,}):', rest):
+                continue        # huge bulk keys are only meaningful for the B-tree map (VecMap would allocate key+1 slots)
             for mp in ('max', 'vec', 'bt'):
-                if mp != 'bt' and re.search(r'(^|[ ,])(\d{6,}):', rest):
-                    pass
                 out.append((fam, ' '.join(p[:3] + [mp]) + '\n' + rest))
         hs = out
     return corpus_for(prop) + hs
@@ -497,7 +497,14 @@ def check(prop, tier, seed):
                 a = hs[i].split('\n', 1)
                 if i + 2 < len(hs) and hs[i + 1].split('\n', 1)[1:] == a[1:] and hs[i + 2].split('\n', 1)[1:] == a[1:] \
                         and a[0].endswith(' max') and impl[i] and impl[i + 1] and impl[i + 2]:
-                    ro = [[l for l in impl[j]['lines'] if l[0] in 'RO'] for j in (i, i + 1, i + 2)]
+                    # lines the reference does not predict (`?`: equality of collections with pending
+                    # writes, which is intensional) are not part of the property
+                    try:
+                        pred = pyref.predict(pyref.parse_histories(hs[i])[0])
+                    except Exception:
+                        pred = []
+                    skip = {k for k, pl in enumerate(pred) if '?' in pl}
+                    ro = [[l for k, l in enumerate(x for x in impl[j]['lines'] if x[0] in 'RO') if k not in skip] for j in (i, i + 1, i + 2)]
                     for j in (1, 2):
                         if ro[j] != ro[0]:
                             k = next((x for x in range(min(len(ro[0]), len(ro[j]))) if ro[0][x] != ro[j][x]), 0)
